@@ -1246,13 +1246,13 @@ func implWspDecode(s string) (out string) {
 	if err != nil {
 		e := err.Error()
 		switch {
-		case strings.Contains(e, "missing"):
+		case strings.HasPrefix(e, "malformed WSP request,missing"):
 			return "err=separator"
-		case strings.Contains(e, "first line"):
+		case strings.HasPrefix(e, "malformed WSP request first line"):
 			return "err=firstline"
-		case strings.Contains(e, "proto"):
+		case strings.HasPrefix(e, "malformed WSP request proto "):
 			return "err=proto"
-		case strings.Contains(e, "command"):
+		case strings.HasPrefix(e, "malformed WSP request command "):
 			return "err=command"
 		}
 		return "err=?" + e
